@@ -121,8 +121,11 @@ P = {
        "directory, umask, mode, buffer size, piece list, fault and kill point: dest_old_or_new_at_every_prefix, "
        "rename_after_all_bytes, failure_clean, commit_result, close_commit_idempotent, history_dest_old_or_new for arbitrary "
        "File API histories, create_touches_no_existing_entry, create_gives_up_after_1000, full_dest_old_or_new, "
-       "full_failure_leaves_only_the_temp, unlink_error_reporting, no_clash_unless_lookalike. Tied by in-process differential "
-       "streams (api, wf, paths, dest) and an exhaustive strace enumeration (syscall sequences, injected errno on every "
+       "full_failure_leaves_only_the_temp, full_commit_result, and for the complete File API full_history_dest_old_or_new / "
+       "full_history_failure_leaves_only_the_temp / full_history_commit_result with a failing unlink, unlink_error_reporting, "
+       "no_clash_unless_lookalike. Tied by in-process differential streams (api, wf, paths, dest, and collide: REAL name "
+       "collisions with crypto/rand.Reader pinned - 0..1000 existing candidate names skipped untouched, ErrExist after 1000, the "
+       "excluded safe<n> self-collision reproduced) and an exhaustive strace enumeration (syscall sequences, injected errno on every "
        "write/close/rename/unlink, EEXIST on the first 1, 2, 999, 1000 temp opens, SIGKILL on entry to every syscall incl. the "
        "cleanup and panic-unwind paths); the buffer size is measured from behaviour.",
   note="assumed: POSIX rename atomicity, page-cache survival after SIGKILL, kernel umask arithmetic, no short writes; excluded "
